@@ -400,6 +400,12 @@ def build_query(hyps, goal, quantified=False, models=True, extra_instances=True,
     """Returns (text, info).  Query is sat iff goal can fail under hyps."""
     ghyps, concl = split_goal(goal)
     all_h = list(hyps) + ghyps
+    # an existential conclusion: its negation is a universal hypothesis (instantiated like the others)
+    parts_ = []
+    flatten_conj(concl, parts_)
+    if len(parts_) == 1 and concl[0] == 'q' and concl[1] == 'exists':
+        all_h.append(T.forall(concl[2], T.not_(concl[3])))
+        concl = T.FALSE
     info = {'instantiated': False}
     if unfold is not None:
         all_h = all_h + unfold(all_h + [concl])
